@@ -78,6 +78,7 @@ struct Plan {
     int pre = 0, post = 0; // junk bytes before / after each dump in its file
     int seek = 0; // the input stream can be positioned (a file) or not (a pipe)
     int fe = 0; // sticky floating-point exception flags (FE_* mask) the thread already carries when each operation starts
+    int index = -1; // premain profile: which of the fixed pre-main plans this is
     std::vector<Op> ops;
 };
 
@@ -88,7 +89,7 @@ std::string plan_text(const Plan &p)
     o << "world hist\n";
     o << "run property=" << p.property << " profile=" << p.profile << " seed=" << p.seed << " nslots=" << p.nslots
       << " getbuf=" << p.getbuf << " putbuf=" << p.putbuf << " exc=" << p.exc << " vmode=" << p.vmode
-      << " nice=" << p.nice << " pre=" << p.pre << " post=" << p.post << " seek=" << p.seek << " fe=" << p.fe << "\n";
+      << " nice=" << p.nice << " pre=" << p.pre << " post=" << p.post << " seek=" << p.seek << " fe=" << p.fe << " index=" << p.index << "\n";
     for (auto &op : p.ops) {
         o << "op " << OP_NAMES[op.kind] << " a=" << op.a << " b=" << op.b;
         if (op.stack >= 0)
@@ -160,6 +161,8 @@ bool parse_plan(std::istream &is, Plan &p, std::string &expect)
                     p.seek = std::atoi(v.c_str());
                 else if (k == "fe")
                     p.fe = std::atoi(v.c_str());
+                else if (k == "index")
+                    p.index = std::atoi(v.c_str());
             }
             continue;
         }
@@ -2187,6 +2190,7 @@ Plan gen_own_plan(const std::string &property, uint64_t seed, uint64_t index, bo
     return p;
 }
 
+std::vector<Plan> premain_plans();
 Plan gen_plan(const std::string &property, const std::string &profile, uint64_t seed, bool thorough, const Disabled &dis, uint64_t index = 0)
 {
     if (profile == "ownsweep")
@@ -2199,6 +2203,15 @@ Plan gen_plan(const std::string &property, const std::string &profile, uint64_t 
         return gen_big_plan(property, seed, index, thorough, dis);
     if (profile == "hugesweep")
         return gen_huge_plan(property, seed, index, thorough, dis);
+    if (profile == "premain") {
+        auto v = premain_plans();
+        Plan p;
+        if (!v.empty())
+            p = v[index % v.size()];
+        p.property = property;
+        p.profile = "premain";
+        return p;
+    }
     Plan p;
     p.property = property;
     p.profile = profile;
@@ -2753,6 +2766,144 @@ RunResult run_plan_once(const Plan &p, Disabled &dis, Counters &cnt, Progress *p
     return rr;
 }
 
+
+// ------------------------------------------------------------------ the phase before main()
+// A field may be a namespace-scope object: constructed, converted, filled or loaded while the
+// program's static initialisers run. Library state that is itself initialised dynamically
+// (a table held in a static data member of a class template, say) may not exist yet at that
+// point. A fixed family of small plans - one per stack (construct, look up, copy, dump, load)
+// and one per conversion pair (construct, convert, look up, convert back) - is executed by a
+// static object of THIS translation unit whose init_priority places it after the adapters'
+// registrars and before every initialiser of default priority. The results are kept; the
+// `premain` profile reports them and requires that the same plan, executed again after main()
+// has started, observes exactly the same.
+struct PreMainEntry {
+    Plan plan;
+    RunResult res;
+};
+std::vector<PreMainEntry> *g_premain = nullptr;
+
+std::vector<Plan> premain_plans()
+{
+    std::vector<Plan> v;
+    auto base = [&](uint64_t seed) {
+        Plan p;
+        p.property = "C05";
+        p.profile = "premain";
+        p.seed = seed;
+        p.nslots = 3;
+        p.getbuf = 64;
+        p.putbuf = 64;
+        p.nice = 1;
+        p.vmode = VAL_FINITE;
+        p.index = (int)v.size();
+        return p;
+    };
+    auto mk = [](int kind, int a, int b, int stack, uint64_t vs) {
+        Op o;
+        o.kind = kind;
+        o.a = a;
+        o.b = b;
+        o.stack = stack;
+        o.vseed = vs & 0xffffffffffffull;
+        return o;
+    };
+    auto ext_of = [](const StackDesc &d) {
+        static const size_t e4[] = {3, 2, 4, 2};
+        std::vector<size_t> e;
+        if (d.shape == SHAPE_BARE)
+            e.push_back(5);
+        else if (d.shape == SHAPE_LAYOUT)
+            e.assign(e4, e4 + d.N);
+        return e;
+    };
+    for (int i = 0; i < g_nstacks; ++i) {
+        const StackDesc &d = g_stacks[i];
+        if (!ops_of(i).has_core || d.device)
+            continue;
+        Plan p = base(1000 + (uint64_t)i);
+        Op c = mk(OP_CONSTRUCT, 0, 0, i, mix64(77, (uint64_t)i));
+        c.ext = ext_of(d);
+        p.ops.push_back(c);
+        p.ops.push_back(mk(OP_LOOKUP, 0, 0, -1, mix64(78, (uint64_t)i)));
+        p.ops.push_back(mk(OP_LOOKUP, 0, 0, -1, mix64(79, (uint64_t)i)));
+        p.ops.push_back(mk(OP_COPY_CTOR, 1, 0, -1, 2));
+        p.ops.push_back(mk(OP_WRITE, 1, 0, -1, mix64(80, (uint64_t)i)));
+        if (ops_of(i).has_io) {
+            p.ops.push_back(mk(OP_DUMP, 1, 0, -1, 5));
+            p.ops.push_back(mk(OP_LOAD, 2, 0, i, 6));
+            p.ops.push_back(mk(OP_LOOKUP, 2, 0, -1, mix64(81, (uint64_t)i)));
+        }
+        v.push_back(p);
+    }
+    for (int k = 0; k < g_nconv; ++k) {
+        int dd = g_conv_pairs[k][0], sd = g_conv_pairs[k][1];
+        if (!ops_of(dd).has_core || !ops_of(sd).has_core || !ops_of(dd).conv[sd].copy || g_stacks[sd].device)
+            continue;
+        Plan p = base(5000 + (uint64_t)k);
+        Op c = mk(OP_CONSTRUCT, 0, 0, sd, mix64(90, (uint64_t)k));
+        c.ext = ext_of(g_stacks[sd]);
+        p.ops.push_back(c);
+        p.ops.push_back(mk(OP_CONVERT_COPY, 1, 0, dd, 4));
+        if (!g_stacks[dd].device)
+            p.ops.push_back(mk(OP_LOOKUP, 1, 0, -1, mix64(91, (uint64_t)k)));
+        if (ops_of(sd).conv[dd].copy && !g_stacks[dd].device) {
+            p.ops.push_back(mk(OP_CONVERT_COPY, 2, 1, sd, 6));
+            p.ops.push_back(mk(OP_LOOKUP, 2, 0, -1, mix64(92, (uint64_t)k)));
+        }
+        v.push_back(p);
+    }
+    return v;
+}
+
+struct PreMainRunner {
+    PreMainRunner()
+    {
+        static std::vector<PreMainEntry> store;
+        static Progress dummy;
+        Disabled dis;
+        Counters cnt;
+        for (auto &p : premain_plans()) {
+            PreMainEntry e;
+            e.plan = p;
+            e.res = run_plan_once(p, dis, cnt, &dummy);
+            store.push_back(e);
+        }
+        g_premain = &store;
+    }
+};
+PreMainRunner g_premain_runner __attribute__((init_priority(60000)));
+
+// verdict for pre-main plan i: what it observed then, and whether the same plan observes the same now
+RunResult eval_premain(size_t i, Disabled &dis, Counters &cnt, Progress *prog)
+{
+    RunResult bad;
+    if (!g_premain || i >= g_premain->size()) {
+        bad.ok = true;
+        return bad;
+    }
+    const PreMainEntry &e = (*g_premain)[i];
+    cnt.inc("probe.plan_executed_before_main");
+    if (!e.res.ok) {
+        RunResult r = e.res;
+        r.v.key = "premain-" + r.v.key;
+        r.v.detail = "executed while static initialisers were still running: " + r.v.detail;
+        return r;
+    }
+    RunResult now = run_plan(e.plan, dis, cnt, prog);
+    if (!now.ok)
+        return now;
+    if (now.obs != e.res.obs) {
+        now.ok = false;
+        int st = e.plan.ops.empty() ? -1 : e.plan.ops[0].stack;
+        now.v.key = std::string("premain-diverge:") + (st >= 0 ? g_stacks[st].id : "-") + ":" + OP_NAMES[e.plan.ops.back().kind];
+        now.v.detail = "the same plan observed different values before main() and after it started";
+        now.v.op = -1;
+    }
+    now.nontrivial = true;
+    return now;
+}
+
 }
 
 int main(int argc, char **argv)
@@ -2781,7 +2932,7 @@ int main(int argc, char **argv)
         }
         prog->run = 0;
         prog->seed = p.seed;
-        RunResult rr = run_plan(p, dis, cnt, prog);
+        RunResult rr = (p.profile == "premain" && p.index >= 0) ? eval_premain((size_t)p.index, dis, cnt, prog) : run_plan(p, dis, cnt, prog);
         if (rr.ok)
             std::printf("REPLAY ok obs=%016llx steps=%llu\n", (unsigned long long)rr.obs, (unsigned long long)rr.steps);
         else
@@ -2800,6 +2951,8 @@ int main(int argc, char **argv)
             total = alloc_total(thorough, dis);
         else if (profile == "bigsweep")
             total = big_items(property, thorough, dis).size() * 8;
+        else if (profile == "premain")
+            total = g_premain ? g_premain->size() : 0;
         else
             sweep_items(profile, thorough, dis, total);
         std::printf("SWEEP %llu\n", (unsigned long long)total);
@@ -2826,7 +2979,7 @@ int main(int argc, char **argv)
         prog->seed = rs;
         prog->op = 0;
         Plan p = gen_plan(property, profile, rs, thorough, dis, i);
-        RunResult rr = run_plan(p, dis, cnt, prog);
+        RunResult rr = profile == "premain" ? eval_premain((size_t)i, dis, cnt, prog) : run_plan(p, dis, cnt, prog);
         steps += rr.steps;
         if (rr.ok)
             std::printf("RUN %llu %llu %016llx %016llx %d ok\n", (unsigned long long)i, (unsigned long long)rs, (unsigned long long)rr.obs,
